@@ -6,7 +6,10 @@ package grammar
 
 import "strings"
 
+var longInvalidC11 = "a == 1 " + strings.Repeat("x", 700)
+
 var corpusC11 = []string{
+	longInvalidC11,
 	`a==1`, `a == 1 or b == 2`, `not a in b`, `(a==1)`, `a ==`, `a == 1x`, `(1 in foo[1]`, `a["b" == 1`, `any a as x { x == 1 }`, `a == "x`, `((a==1))`, ``, `a matches "x" and b is empty`,
 }
 
